@@ -36,10 +36,9 @@ def handle : Handler := fun op args =>
   | "c17.feq" => withArgs (do let x ← pRat; let y ← pRat; let t ← pRat; pure (x, y, t)) args fun (x, y, t) =>
       "ok " ++ (if floatsEqual x y t then "1" else "0") ++ " " ++ showRat (relDiff x y)
   | "c17.round" => withArgs (do let x ← pRat; let d ← pNat; pure (x, d)) args fun (x, d) =>
-      if d = 0 then "undef" else outR (round x d)
+      outR (round x d)
   | "c17.roundV" => withArgs (do let x ← pRats; let d ← pNat; pure (x, d)) args fun (xs, d) =>
-      if d = 0 then "undef" else
-      if d > 7 ∧ !xs.isEmpty then "err" else
+      if (d = 0 ∨ d > 7) ∧ !xs.isEmpty then "err" else
         "ok " ++ toString xs.length ++ " " ++ showRats (xs.map fun x => match round x d with | .ok v => v | .error _ => 0)
   | "c17.dawson" => withArgs pRat args fun x =>
       "ok " ++ (if rabs x < 2 / 10 then "small " else "large ") ++ showRat (if rabs x < 2 / 10 then dawson expApprox x else rnd (dawson expApprox x))
@@ -47,6 +46,7 @@ def handle : Handler := fun op args =>
   | "c17.inverf" => withArgs pRat args fun p =>
       match invErfCase p with
       | .ten => "ok ten"
+      | .minusTen => "ok minusten"
       | .diag => "err"
       | .root => "ok root"
   | "c17.vshy" => withArgs (do let c ← pInt; let l ← pInt; let m ← pInt; let lh ← pInt; let mh ← pInt; pure (c, l, m, lh, mh)) args
